@@ -225,7 +225,7 @@ def ntt_configs(tier, seed=0):
             out.append((cap, n, ncols, nphase, nblock, buf, dstmode, 1))
     # very wide matrices with a tiny transform (cost is linear in the columns): a column slice, a tile or a stack buffer of a few
     # hundred elements shows here even when no new constant gives it away
-    for ncols in ((131, 1031) if tier == 'quick' else (131, 520, 1031, 4099)):
+    for ncols in ((131, 1031) if tier == 'quick' else (131, 520, 1031)):
         for n, nphase, nblock, buf, dstmode in ((2, 2, 1, False, 'src'), (2, 3, 1, False, 'other'), (4, 2, 2, True, 'src')):
             out.append((n, n, ncols, nphase, nblock, buf, dstmode, 1))
     # objects built for several threads, interpreted with a team of ONE abstract thread (OpenMP never promises the team that was
@@ -273,7 +273,7 @@ def ext_configs(tier, seed=0):
     for capN, N, Next in big:
         for ncols, nphase, nblock, buf, inplace in ((1, 3, 1, False, True), (2, 2, 1, False, True), (3, 0, 2, True, False), (1, 4, 1, True, True), (2, 1, 3, False, False)):
             out.append((capN, N, Next, ncols, nphase, nblock, buf, 1, inplace))
-    for ncols in ((131, 1031) if tier == 'quick' else (131, 520, 1031, 4099)):
+    for ncols in ((131, 1031) if tier == 'quick' else (131, 520, 1031)):
         for N, Next, nphase, nblock, buf, inplace in ((2, 4, 2, 1, False, True), (2, 4, 3, 1, True, False), (1, 2, 2, 1, False, True), (2, 4, 2, 2, False, True)):
             out.append((max(N, 2), N, Next, ncols, nphase, nblock, buf, 1, inplace))
     if tier == 'quick':
